@@ -10,6 +10,7 @@ import (
 
 	"github.com/go-kid/ioc/app"
 	"github.com/go-kid/ioc/configure"
+	"github.com/go-kid/ioc/container"
 	"pgregory.net/rapid"
 	"verif/harness/graph"
 	"verif/harness/kit"
@@ -76,6 +77,29 @@ func (r *Runner) Run() error {
 	r.B.Log.Add(zoo.Event{Kind: "run", ID: r.B.ID})
 	if r.B.FailRun != 0 {
 		return zoo.ErrInjected
+	}
+	return nil
+}
+
+// FactoryPP: a user ComponentFactoryPostProcessor / DefinitionRegistryPostProcessor that can be told to fail.
+type FactoryPP struct {
+	failFactory bool
+	rejectName  string
+	fired       *int
+}
+
+func (f *FactoryPP) Naming() string { return "factory-pp" }
+func (f *FactoryPP) PostProcessComponentFactory(factory container.Factory) error {
+	if f.failFactory {
+		*f.fired++
+		return errors.New("injected factory post-processor fault")
+	}
+	return nil
+}
+func (f *FactoryPP) PostProcessDefinitionRegistry(registry container.DefinitionRegistry, component any, name string) error {
+	if f.rejectName != "" && f.rejectName == name {
+		*f.fired++
+		return errors.New("injected scanner fault")
 	}
 	return nil
 }
@@ -232,11 +256,25 @@ func build(b *Base, faults []Site) *built {
 				o.FailInst = f.Name
 			case "pp-early":
 				o.FailEarly = f.Name
+			case "pp-props":
+				o.FailProps = f.Name
+			case "pp-beforeinst":
+				o.FailBeforeInst = f.Name
 			}
 		}
 		bu.obs = append(bu.obs, o)
 		in.Extra = append(in.Extra, o)
 	}
+	fpp := &FactoryPP{fired: &bu.fired}
+	for _, f := range faults {
+		switch f.Kind {
+		case "factory-pp":
+			fpp.failFactory = true
+		case "scanner":
+			fpp.rejectName = f.Name
+		}
+	}
+	in.Extra = append(in.Extra, fpp)
 	for j := 0; j < b.Loaders; j++ {
 		l := &FLoader{fired: &bu.fired}
 		if j == 0 {
@@ -287,13 +325,17 @@ func sites(b *Base) []Site {
 	}
 	for k := 0; k < b.Obs; k++ {
 		for _, nm := range names {
-			for _, kind := range []string{"pp-before", "pp-after", "pp-inst", "pp-early"} {
+			for _, kind := range []string{"pp-before", "pp-after", "pp-inst", "pp-early", "pp-props", "pp-beforeinst"} {
 				out = append(out, Site{Kind: kind, A: k, Name: nm})
 			}
 		}
 	}
 	for j := 0; j < b.Loaders; j++ {
 		out = append(out, Site{Kind: "loader", A: j})
+	}
+	out = append(out, Site{Kind: "factory-pp"})
+	for _, nm := range names {
+		out = append(out, Site{Kind: "scanner", Name: nm})
 	}
 	var keys []string
 	for k, owner := range cfgKeys {
@@ -361,7 +403,8 @@ func decide(t fataler, b *Base, faults []Site) {
 				continue
 			}
 			if (e.Kind == "before" && e.Name == o.FailBefore) || (e.Kind == "after" && e.Name == o.FailAfter) ||
-				(e.Kind == "inst" && e.Name == o.FailInst) || (e.Kind == "early" && e.Name == o.FailEarly) {
+				(e.Kind == "inst" && e.Name == o.FailInst) || (e.Kind == "early" && e.Name == o.FailEarly) ||
+				(e.Kind == "props" && e.Name == o.FailProps) || (e.Kind == "beforeinst" && e.Name == o.FailBeforeInst) {
 				firedEarly++
 				firedWhere = append(firedWhere, e.Kind+"@"+e.Name)
 				notFirst = notFirst || e.ID != firstCreated
@@ -370,7 +413,7 @@ func decide(t fataler, b *Base, faults []Site) {
 	}
 	firedEarly += bu.fired
 	if bu.fired > 0 {
-		firedWhere = append(firedWhere, "loader")
+		firedWhere = append(firedWhere, "loader/factory-pp/scanner")
 	}
 	// structural faults: ask the model (component points) and the key list (configuration)
 	g := in.G
